@@ -61,11 +61,19 @@ def gen_tree(r, troot, tmpfs_dir):
         rules = r.sample(["*.bin", "*.log", "data", "sub/", "b/", "f.txt", "UP/"], r.randrange(1, 3))
         with open(os.path.join(d, r.choice([".gitignore", ".fdignore"])), "w") as f:
             f.write("\n".join(rules) + "\n")
+        for rule in rules:
+            if rule.endswith("/") and r.random() < 0.5 and files:
+                # a link (not a directory) named like a directories-only rule, in the rule's scope
+                below = [x for x in dirs if x == d or x.startswith(d + "/")]
+                lp = os.path.join(r.choice(below), rule[:-1])
+                if not os.path.lexists(lp):
+                    os.symlink(r.choice(files if r.random() < 0.7 else dirs), lp)
     # symlinks
     for _ in range(r.choice([0, 0, 1, 2, 4])):
         d = r.choice(dirs)
         kind = r.choice(["file-rel", "file-abs", "dir-rel", "dir-abs", "dangling", "cycle", "tmpfs-dir", "tmpfs-file"])
-        lp = os.path.join(d, "ln%d" % r.randrange(1000))
+        # some links carry a name that an ignore rule mentions (a `name/` rule is for directories only, and a link is not one)
+        lp = os.path.join(d, "ln%d" % r.randrange(1000) if r.random() < 0.7 else r.choice(["sub", "b", "UP", "data"]))
         if os.path.lexists(lp):
             continue
         try:
